@@ -85,22 +85,6 @@ META = {
 
 
 
-def _sig_config_error_escapes(w):
-    """the listed finding and nothing else: DoitMain path, a CmdParseError left `run` as an exception, and the
-    rejected text is a config-section value (the same case without its config sections is not rejected that way)"""
-    case = w.get('case') or {}
-    res = (w.get('impl') or {}).get('res') or {}
-    if case.get('path') != 'main' or not res.get('escaped') or w.get('failed') != 'reject':
-        return False
-    if res.get('err') not in ('bad-value', 'bad-choice') or not (case.get('ini') or case.get('glob')):
-        return False
-    bare = dict(case, ini=[], glob=[])
-    impl = optlib.impl_main(bare, common.scratch_dir('c16sig'))
-    return not (impl.get('res') or {}).get('escaped')
-
-
-SIGNATURES = {'config-error-escapes': _sig_config_error_escapes}
-
 PATHS = ['parse', 'parse', 'command', 'main', 'task', 'creator']
 
 
@@ -262,6 +246,8 @@ def judge(case, impl, model, spec):
     if not same_result(r1, model['res'], case):
         div.append('M4/%s: result differs: impl %s model %s' % (path, canon(res_key(r1))[:300],
                                                                canon(res_key(model['res']))[:300]))
+    if path == 'main' and 'exit' in impl and impl['exit'] != model.get('exit'):
+        div.append('M4/main: DoitMain.run ended with %s, the model with exit %s' % (impl['exit'], model.get('exit')))
     if path in ('parse', 'realcmd') and not impl.get('ctor'):
         if not same_result(impl.get('res2'), model['res2'], case):
             div.append('M4/parse: second parse differs: impl %s model %s'
